@@ -153,6 +153,9 @@ func WriteFont(f *FontSpec, lay Layout) ([]byte, error) {
 	}
 	fmt.Fprintf(&priv, "/Subrs %d array\n", len(f.Subrs))
 	for i, s := range f.Subrs {
+		if s == nil {
+			continue // an unassigned slot of the array (as a subsetter leaves behind)
+		}
 		plain, err := EncodeCharstring(s, lay.LongNum)
 		if err != nil {
 			return nil, err
